@@ -454,11 +454,23 @@ def gen_simple(rng, H):
     if names_in_args:
         H["simple:units with macro names in arguments"] += 1
 
+    nested = rng.random() < 0.4
+    if nested:
+        H["simple:units with invocations nested in arguments"] += 1
+
     def arg(depth=0):
         out = []
         for _ in range(rng.choice([1, 1, 2, 3, 5])):
             r = rng.random()
-            if names_in_args and r < 0.25:
+            if nested and depth < 2 and r < 0.15:
+                f = rng.choice(funs)
+                out += [f, "("]
+                for k in range(sig[f]):
+                    if k:
+                        out.append(",")
+                    out += arg(depth + 1)
+                out.append(")")
+            elif names_in_args and r < 0.3:
                 out.append(rng.choice(objs))
             elif r < 0.35:
                 out.append(rng.choice(PLAIN + PARAMS))
@@ -1103,6 +1115,18 @@ def examine1(X, texts, label, expect=None, asan=None):
             # behind the first text line: a directive was reached inside an invocation (undefined, 6.10.3p11;
             # the use-after-free is the C19 finding undef-during-argument-collection)
             s.notes = set(s.notes) | {"dirInArgs"}
+        if getattr(m, "cls", None) and s.err is None and (m.err is not None or m.keys(X) != s.keys(X)):
+            # the unit is in the class of function_like_correct_total (decided by the theorem's own tests on the
+            # table the MODEL builds), the reference accepts its directives too (so it builds the same table, up to
+            # the recorded finding macroequal-ignores-space), and yet model and reference differ: the proved
+            # statement and the evaluated definitions contradict each other
+            nofail_violation(X, {"kind": "theorem-class-contradiction", "input": t, "input_hex": hx(bs[i]), "set": label,
+                                 "class": m.cls, "model": show(X, m.toks) + (" !" + m.err if m.err else ""),
+                                 "reference": show(X, s.toks) + (" !" + s.err if s.err else ""),
+                                 "theorem": "CprocVerif.C12.function_like_correct_total",
+                                 "what": "a unit inside the class of the whole-stream theorem on which the driver's "
+                                         "model and reference do not deliver the same tokens"})
+            continue
         if "dirInArgs" in s.notes or "dirInArgs" in m.notes:
             X.ninputs["undefined-6.10.3p11(skipped)"] = X.ninputs.get("undefined-6.10.3p11(skipped)", 0) + 1
             continue
@@ -1531,13 +1555,13 @@ def run(ck):
         "function_like_correct_init, table with function-like macros (tblOKb/textOKb evaluated by the driver "
         "on the table the model builds from the leading directives)": n_wf,
         "function_like_correct_init, object-like table": n_wo,
-        "function_like_args_correct_init only (arguments that name object-like macros: complete replacement "
-        "before substitution; textPb evaluated by the driver)": n_wp,
+        "function_like_args_correct_init only (arguments that name object-like macros or hold nested invocations: "
+        "complete replacement before substitution; textPb evaluated by the driver)": n_wp,
         "some whole-stream theorem": n_any,
         "fraction_total": round(n_tot / n_units, 4), "fraction_object_like": round(n_obj / n_units, 4),
         "fraction_function_like_whole_stream": round((n_wf + n_wp) / n_units, 4),
         "fraction_some_whole_stream_theorem": round(n_any / n_units, 4),
-        "note": "the other units with function-like macros (invocations inside arguments, `#`, `...`, empty "
+        "note": "the other units with function-like macros (`#`, `...`, empty "
                 "arguments or replacement lists, directives after the first text line, names of function-like "
                 "macros inside replacement lists) are covered by the component theorems (define_*, macroequal_*, "
                 "split_args_correct, expandfunc_is_collect, ctxnext_delivers_flat, lazy_substitution_correct, "
@@ -1576,8 +1600,16 @@ META = {
              "ctxnext() delivers the next token of the eagerly substituted stack and that substitution is the "
              "reference's subst (ctxnext_delivers_flat, lazy_substitution_correct); for one simple function-like "
              "invocation the model's new context equals the list the reference continues with "
-             "(function_like_step_correct); object-like expansion terminates within an explicit fuel bound "
-             "(object_like_terminates, object_like_correct_total); a surplus argument is rejected; painted "
+             "(function_like_step_correct); for tables of object-like and simple function-like macros (at least one "
+             "parameter, no #, no ..., no empty replacement list, no function-like name inside a replacement list) and "
+             "texts without directives whose invocations have the right number of non-empty arguments, the arguments "
+             "naming object-like macros and holding nested invocations to any depth, the model's token stream IS the "
+             "reference's (function_like_correct_partial; function_like_args_correct_partial: complete replacement of "
+             "the arguments on the context stack interleaved with their collection = the reference's isolate-then-"
+             "replace, painted names surviving rescanning) and the run terminates without a fuel hypothesis "
+             "(function_like_terminates, function_like_correct_total; the class is decided by the executable tests "
+             "tblOKb/textPb which the driver evaluates on every unit); object-like expansion terminates within an "
+             "explicit fuel bound (object_like_terminates, object_like_correct_total); a surplus argument is rejected; painted "
              "identifiers are never expanded; more fuel never changes a completed result.  The full model=reference statement for "
              "function-like macros is stated and refuted by the recorded known findings.  Tied to /repo on every "
              "run: the real preprocessor's next() stream (all of /repo linked, one child per input, ASan+UBSan on a "
@@ -1590,12 +1622,14 @@ META = {
              "every run; for a function-like name that is first met without '(' inside an argument and invoked "
              "later, the reference follows the text of 6.10.3.4p2 and both compilers rather than Prosser's "
              "persistent hide sets, and reports when the two readings differ); the scanner model of C13 for "
-             "tokenisation; the macro table as a dictionary (C16/C20).  Not proved: model = reference for "
-             "function-like macros as a whole-stream statement (the invocation step and its ingredients are proved; "
-             "checked by the run; the excluded classes are the known findings "
-             "stringize-nested-call, empty-expansion-space, depth-count-confusion, pragma-funclike-lookahead, "
-             "directive-between-name-and-paren), pre-expansion of arguments that contain macro names, termination "
-             "of function-like expansion without fuel.  Out of domain: directives inside the arguments "
+             "tokenisation; the macro table as a dictionary (C16/C20).  Not proved: model = reference as a "
+             "whole-stream statement outside the class above, i.e. with #param, variadic macros, empty arguments or "
+             "replacement lists, names of function-like macros inside replacement lists or not followed by '(', "
+             "directives after the first text line (the ingredients are proved; checked by the run; the excluded "
+             "classes include the known findings stringize-nested-call, empty-expansion-space, depth-count-confusion, "
+             "pragma-funclike-lookahead, directive-between-name-and-paren); that the table the model builds from the "
+             "#define lines is the table the reference builds (checked by the run); an explicit fuel bound for "
+             "function-like expansion (existence of enough fuel is proved).  Out of domain: directives inside the arguments "
              "of an invocation (undefined, 6.10.3p11) and the 6.10.3.4p4 nesting case (unspecified)."),
     "technique": "Lean 4 proof (simulation of the context stack against the hide-set algorithm, invariants, "
                  "fun_induction on the definition loops, grind for monotonicity of the open-recursive bodies, kernel "
